@@ -232,106 +232,111 @@ def r_onevalue(ctx):
 
 # ---------------------------------------------------------------------------------------------------
 def r_lookup_and_separate(ctx):
+    """The two private routines of the oracle, as programs (sa/miniint.py).
+
+    lookup  -- on a function with recorded samples at x, at 2x + y and again at x: a query returns the (gradient, value) of the FIRST sample recorded
+               at a point with the same pruned decomposition (the same object, another object with equal weights, the same weights plus explicit
+               zeros), and None for any other point -- in particular for a point whose decomposition is only contained in a recorded one.
+    need classification -- for a composite with three terms and each combination of (already evaluated?, differentiable?) per term: the three
+               lists returned are (need nothing, need a gradient only, need gradient and value), each holding (term, weight), decided on the
+               TERM's own evaluation and the TERM's own differentiability."""
+    from ..miniint import IndexInterp, SymObj
+    import itertools as _it
     fn = _fn(ctx, LOOKUP)
-    point = params_of(fn)[1]
-    loops = [l for l in flow.stmts_of(fn, ast.For) if dotted(l.iter) == "self.list_of_points"]
-    ok = len(loops) == 1 and isinstance(loops[0].target, ast.Name)
-    msg = "lookup does not iterate the whole list of recorded samples"
-    pruned_ok = False
-    gens = [n for n in ast.walk(fn) if isinstance(n, ast.Call) and call_name(n) == "next" and len(n.args) == 2 and isinstance(n.args[0], ast.GeneratorExp)
-            and isinstance(n.args[1], ast.Constant) and n.args[1].value is None]
-    if not loops and len(gens) == 1 and any(isinstance(r, ast.Return) and r.value is gens[0] for r in ast.walk(fn)):
-        # return next((t[1:] for t in self.list_of_points if t[0].decomposition_dict == <pruned query>), None)
-        ge = gens[0].args[0]
-        g0 = ge.generators[0] if len(ge.generators) == 1 else None
-        ok = g0 is not None and dotted(g0.iter) == "self.list_of_points" and isinstance(g0.target, ast.Name) and len(g0.ifs) == 1 \
-            and src(ge.elt).replace(" ", "") == "%s[1:]" % g0.target.id and isinstance(g0.ifs[0], ast.Compare) and isinstance(g0.ifs[0].ops[0], ast.Eq)
-        msg = "returns (gradient, value) of the first recorded sample with the same decomposition" if ok else "lookup compares / returns something else"
-        if ok:
-            t = g0.target.id
-            sides = [g0.ifs[0].left, g0.ifs[0].comparators[0]]
-            stored = [x for x in sides if src(x).replace(" ", "") == "%s[0].decomposition_dict" % t]
-            query = [x for x in sides if x not in stored]
-            ok = len(stored) == 1 and len(query) == 1
-            if ok:
-                q = query[0]
-                if isinstance(q, ast.Call) and call_name(q) == "prune_dict" and src(q.args[0]) == "%s.decomposition_dict" % point:
-                    pruned_ok = True
-                elif isinstance(q, ast.Name):
-                    d = [s0 for s0 in flow.stmts_of(fn, ast.Assign) if dotted(s0.targets[0]) == q.id]
-                    pruned_ok = len(d) == 1 and isinstance(d[0].value, ast.Call) and call_name(d[0].value) == "prune_dict" \
-                        and src(d[0].value.args[0]) == "%s.decomposition_dict" % point
-        loops = None
-    if ok and loops:
-        t = loops[0].target.id
-        ifs = [s for s in loops[0].body if isinstance(s, ast.If)]
-        ok = len(ifs) == 1 and isinstance(ifs[0].test, ast.Compare) and isinstance(ifs[0].test.ops[0], ast.Eq)
-        if ok:
-            sides = [ifs[0].test.left, ifs[0].test.comparators[0]]
-            stored = [s for s in sides if src(s).replace(" ", "") == "%s[0].decomposition_dict" % t]
-            query = [s for s in sides if s not in stored]
-            rets = [r for r in ifs[0].body if isinstance(r, ast.Return)]
-            ok = len(stored) == 1 and len(query) == 1 and len(rets) == 1 and src(rets[0].value).replace(" ", "") == "%s[1:]" % t
-            msg = "returns (gradient, value) of the first recorded sample with the same decomposition" if ok else "lookup compares / returns something else"
-            if ok:
-                q = query[0]
-                if isinstance(q, ast.Call) and call_name(q) == "prune_dict" and src(q.args[0]) == "%s.decomposition_dict" % point:
-                    pruned_ok = True
-                elif isinstance(q, ast.Name):
-                    d = [s for s in flow.stmts_of(fn, ast.Assign) if dotted(s.targets[0]) == q.id]
-                    pruned_ok = len(d) == 1 and isinstance(d[0].value, ast.Call) and call_name(d[0].value) == "prune_dict" \
-                        and src(d[0].value.args[0]) == "%s.decomposition_dict" % point and flow.dominates(d[0], loops[0])
-        final = [r for r in fn.body if isinstance(r, ast.Return)]
-        ok = ok and len(final) == 1 and is_const(final[0].value) and final[0].value.value is None
-    ctx.ob("R-LOOKUP", "Function.%s" % LOOKUP, ok, msg, loc(fn, fn))
-    ctx.ob("R-PRUNED", "Function.%s::query pruned" % LOOKUP, pruned_ok,
-           "recorded points are pruned at registration and the query is pruned before the comparison" if pruned_ok else
-           "recorded points are pruned at registration (add_point) but the query decomposition is compared unpruned: a point written with an explicit "
-           "zero weight is not recognised and a differentiable function gets a second gradient at the same point", loc(fn, fn))
-    # need classification
+    pname = params_of(fn)[1]
+    X, Y = SymObj("Point", label="leaf x"), SymObj("Point", label="leaf y")
+    a = Rat.sym("a")
+
+    def prune(d):
+        return {k: v for k, v in d.items() if not (isinstance(v, Rat) and v.is_zero()) and v != 0}
+
+    def on_call(node, it):
+        if call_name(node) == "prune_dict" and len(node.args) == 1:
+            v = it.ev(node.args[0])
+            if isinstance(v, dict):
+                return prune(v)
+        if call_name(node) == "isinstance":
+            return True
+        return NotImplemented
+    mk = lambda label, dd: SymObj("Point", label=label, decomposition_dict=dd)
+    p1, p2, p3 = mk("p1", {X: Rat(1)}), mk("p2", {X: Rat(2), Y: Rat(1)}), mk("p3", {X: Rat(1)})
+    samples = [(p1, SymObj("g", label="g1"), SymObj("f", label="f1")), (p2, SymObj("g", label="g2"), SymObj("f", label="f2")),
+               (p3, SymObj("g", label="g3"), SymObj("f", label="f3"))]
+    queries = [("the recorded point object", p1, 0), ("another object with the same decomposition", mk("q", {X: Rat(1)}), 0),
+               ("the same decomposition plus an explicit zero weight", mk("q", {X: Rat(1), Y: Rat(0)}), 0),
+               ("the second recorded point", mk("q", {Y: Rat(1), X: Rat(2)}), 1),
+               ("a point never recorded", mk("q", {Y: Rat(1)}), None),
+               ("a point whose decomposition is contained in a recorded one (x vs 2x + y, weights differ)", mk("q", {X: Rat(2)}), None),
+               ("a point that shares a leaf but not its weight", mk("q", {X: a}), None)]
+    bad = None
+    for what, q, want in queries:
+        it = IndexInterp({pname: q, "self.list_of_points": list(samples)}, on_call=on_call)
+        try:
+            ret = it.run(fn.body)
+        except AnalysisError as e:
+            bad = "lookup not interpretable (%s): %s" % (what, e)
+            break
+        if want is None:
+            if ret is not None:
+                bad = "query = %s: the lookup returns `%r`, expected None (a different point must get its own gradient and value)" % (what, ret)
+                break
+        else:
+            g, f = samples[want][1], samples[want][2]
+            if not (isinstance(ret, (tuple, list)) and len(ret) == 2 and ret[0] is g and ret[1] is f):
+                bad = "query = %s: the lookup returns `%r`, expected the (gradient, value) of the first sample recorded at that point (%s, %s)" % (
+                    what, ret, g.attrs["label"], f.attrs["label"])
+                break
+    ctx.ob("R-LOOKUP", "Function.%s" % LOOKUP, bad is None,
+           "a query finds the first sample recorded at a point with the same pruned decomposition, and nothing else" if bad is None else bad, loc(fn, fn))
+    # ---- need classification
     fn = _fn(ctx, SEPARATE)
-    point = params_of(fn)[1]
-    rets = [r for r in ast.walk(fn) if isinstance(r, ast.Return)]
-    loops = [l for l in flow.stmts_of(fn, ast.For) if isinstance(l.iter, ast.Call) and call_name(l.iter) == "items" and dotted(l.iter.func.value) == "self.decomposition_dict"]
-    ok = len(rets) == 1 and isinstance(rets[0].value, ast.Tuple) and len(rets[0].value.elts) == 3 and len(loops) == 1 and isinstance(loops[0].target, ast.Tuple)
-    msg = "need classification not recognised"
-    if ok:
-        from ..absint import PathEval, bool_decider
-        l0, l1, l2 = [e.id for e in rets[0].value.elts]
-        f, w = [e.id for e in loops[0].target.elts]
-        table = {}
-        for evd in (True, False):
-            for red in (True, False):
-                def atom(t, evd=evd, red=red):
-                    x = t
-                    if isinstance(x, ast.Compare) and len(x.ops) == 1 and isinstance(x.comparators[0], ast.Constant) and x.comparators[0].value is None:
-                        inner = x.left
-                        if isinstance(inner, ast.Call) and call_name(inner) == LOOKUP and isinstance(inner.func, ast.Attribute) and dotted(inner.func.value) == f:
-                            return (not evd) if isinstance(x.ops[0], (ast.Is, ast.Eq)) else evd
-                    if isinstance(x, ast.Call) and call_name(x) == LOOKUP and isinstance(x.func, ast.Attribute):
-                        return evd if dotted(x.func.value) == f else None
-                    if isinstance(x, ast.Attribute) and x.attr == "reuse_gradient":
-                        return red if dotted(x.value) == f else None
+    pname = params_of(fn)[1]
+    bad = None
+    n = 0
+    for combo in _it.product(((True, True), (True, False), (False, True), (False, False)), repeat=2):
+        n += 1
+        terms = []
+        for k, (ev0, red0) in enumerate(combo + ((False, True),)):
+            terms.append(SymObj("Function", label="t%d" % k, evaluated=ev0, reuse_gradient=red0))
+        ws = [Rat.sym("w%d" % k) for k in range(len(terms))]
+        dd = dict(zip(terms, ws))
+
+        def on_call2(node, it):
+            if call_name(node) == LOOKUP and isinstance(node.func, ast.Attribute):
+                recv = it.ev(node.func.value)
+                if isinstance(recv, SymObj) and recv.kind == "Function":
+                    return (SymObj("g"), SymObj("f")) if recv.attrs["evaluated"] else None
+                if dotted(node.func.value) == "self":
                     return None
-                fb = ast.FunctionDef(name="_term", args=ast.arguments(posonlyargs=[], args=[], kwonlyargs=[], kw_defaults=[], defaults=[]), body=loops[0].body, decorator_list=[])
-                dests = set()
-                def alias_ok(e):
-                    from ..absint import _pure
-                    return _pure(e) or (isinstance(e, ast.Call) and call_name(e) == LOOKUP)
-                for pth in PathEval(fb, bool_decider(atom), alias_ok=alias_ok, loop_mode="once").run():
-                    apps = [ev.value for ev in pth.trace if isinstance(ev, ast.Expr) and isinstance(ev.value, ast.Call) and call_name(ev.value) == "append"]
-                    good = [a for a in apps if isinstance(a.args[0], ast.Tuple) and [dotted(e) for e in a.args[0].elts] == [f, w]]
-                    dests.add(tuple(sorted(dotted(a.func.value) for a in good)) if len(good) == len(apps) else ("appends something else",))
-                table[(evd, red)] = dests
-        want = {(True, True): {(l0,)}, (True, False): {(l1,)}, (False, True): {(l2,)}, (False, False): {(l2,)}}
-        ok = table == want
-        msg = "terms are sorted by (already evaluated, the TERM's own differentiability) into need-nothing / need-gradient / need-both" if ok else \
-            "classification %s, expected %s (the tests must be on the term `%s`, not on the sum)" % (
-                {k: sorted(v) for k, v in table.items()}, {k: sorted(v) for k, v in want.items()}, f)
-    ctx.ob("R-SEPARATE", "Function.%s" % SEPARATE, ok, msg, loc(fn, fn))
+            return NotImplemented
+        it = IndexInterp({pname: SymObj("Point", label="x"), "self.decomposition_dict": dd, "self.reuse_gradient": False}, on_call=on_call2)
+        try:
+            ret = it.run(fn.body)
+        except AnalysisError as e:
+            bad = "need classification not interpretable: %s" % e
+            break
+        if not (isinstance(ret, (tuple, list)) and len(ret) == 3 and all(isinstance(l0, list) for l0 in ret)):
+            bad = "the need classification returns `%r`, expected three lists" % (ret,)
+            break
+        want = ([], [], [])
+        for t0, w0 in zip(terms, ws):
+            k = 0 if (t0.attrs["evaluated"] and t0.attrs["reuse_gradient"]) else (1 if t0.attrs["evaluated"] else 2)
+            want[k].append((t0, w0))
+        for k in range(3):
+            got = ret[k]
+            if len(got) != len(want[k]) or any(not (isinstance(x, tuple) and len(x) == 2 and x[0] is y[0] and x[1] is y[1]) for x, y in zip(got, want[k])):
+                bad = ("terms (evaluated, differentiable) = %s: list %d (%s) is %s, expected %s -- the tests must be on the term itself, not on the sum"
+                       % ([(t0.attrs["evaluated"], t0.attrs["reuse_gradient"]) for t0 in terms], k, ("need nothing", "need a gradient", "need both")[k],
+                          [getattr(x[0], "attrs", {}).get("label") if isinstance(x, tuple) else x for x in got], [x[0].attrs["label"] for x in want[k]]))
+                break
+        if bad:
+            break
+    ctx.ob("R-SEPARATE", "Function.%s" % SEPARATE, bad is None,
+           "terms are sorted by (already evaluated, the TERM's own differentiability) into need-nothing / need-gradient / need-both, with their weights" if bad is None else bad,
+           loc(fn, fn))
+    ctx.count("need classifications unrolled", n)
 
 
-# ---------------------------------------------------------------------------------------------------
 def r_stationary_list(ctx):
     """Every recorded sample whose (pruned) gradient is zero joins the stationary list, whichever way it reached the function
     (stationary_point, a step, a composite handing a zero remainder to a term): the test sits in add_point."""
@@ -469,6 +474,35 @@ def r_addpoint_program(ctx):
                 break
         if bad:
             break
+    if bad is None:
+        # a leaf function only registers the sample: nothing is asked of anybody
+        me = SymObj("Function", label="f1")
+        log = []
+        x = VecObj("Point", PointV.atom("x"), decomposition_dict={SymObj("Point", label="x"): Rat(1)})
+        G = VecObj("Point", PointV.atom("G"), decomposition_dict={SymObj("Point", label="G"): Rat(1)})
+        F = VecObj("Expression", ExprV.atom("F"), decomposition_dict={SymObj("Expression", label="F"): Rat(1)})
+
+        def on_leaf(node, it):
+            nm = call_name(node)
+            if nm == "prune_dict" and len(node.args) == 1:
+                return it.ev(node.args[0])
+            if nm in ("oracle", "add_point", SEPARATE):
+                log.append(nm)
+                return ([], [], []) if nm == SEPARATE else None
+            if nm == "isinstance":
+                return True
+            return NotImplemented
+        it = IndexInterp({trip: (x, G, F), "self._is_leaf": True, "self.decomposition_dict": {me: Rat(1)}, "self.list_of_points": [],
+                          "self.list_of_stationary_points": []}, on_call=on_leaf)
+        try:
+            it.run(fn.body)
+            reg = it.env.get("self.list_of_points")
+            if log:
+                bad = "a leaf function: recording a sample calls %s" % log[0]
+            elif not (isinstance(reg, list) and len(reg) == 1):
+                bad = "a leaf function: the sample is registered %s time(s)" % (len(reg) if isinstance(reg, list) else "?")
+        except AnalysisError as e:
+            bad = "a leaf function: add_point not interpretable: %s" % e
     ctx.ob("R-WSUM", "Function.add_point::weighted sum (unrolled, 1..3 terms, every classification)", bad is None,
            "the sample is registered once, every term is visited once, the remainder goes to a term in need and the weighted samples of the terms sum to the sample of the composite"
            if bad is None else bad, loc(fn, fn))
